@@ -492,7 +492,16 @@ def failing_case(name, kind, workers, sched):
         if refs["a"]() is not None: problems.append(f"{name}: the argument of a consumer that failed ({kind}) is still alive 2 s after the failure, while the run goes on")
         return "late"
     plan = uberjob.Plan()
-    a = plan.call(make); f0 = plan.call(first_fail)
+    a = plan.call(make)
+    if kind == "c-level-first":
+        # the failing consumer is implemented in C and is the FIRST failure of the run (kept as the error to report): its traceback has no
+        # frame of user code, so nothing the run keeps may reference the argument
+        def gate(): consumer_done.set(); return 0
+        c = plan.call(operator.getitem, a, plan.call(gate)); l = plan.call(late)
+        try: uberjob.run(plan, output=[c, l], progress=None, max_workers=workers, scheduler=sched, max_errors=None)
+        except uberjob.CallError: pass
+        return
+    f0 = plan.call(first_fail)
     if kind == "c-level":
         def gate(): first_failed.wait(5); time.sleep(0.05); consumer_done.set(); return 0
         c = plan.call(operator.getitem, a, plan.call(gate))       # TypeError raised by C code: no python frame of the consumer holds the argument
@@ -504,7 +513,7 @@ def failing_case(name, kind, workers, sched):
 gc.disable()      # strict reading: freed by reference counting, not at some later cyclic collection
 for workers in (3,):
     for sched in ("default", "random"):
-        for kind in ("exception", "base", "c-level"):
+        for kind in ("exception", "base", "c-level", "c-level-first"):
             failing_case(f"failing-consumer[{kind},workers={workers},{sched}]", kind, workers, sched)
 for workers in (1, 3):
     for sched in ("default", "random"):
